@@ -140,12 +140,12 @@ def encode_template(text, imports=(), filename=None):
     return e
 
 
-def request(e, strict, enable_loop, imp=(), ctx=(), bi=(), extra=(), stops=()):
+def request(e, strict, enable_loop, imp=(), ctx=(), bi=(), extra=(), stops=(), ctx_none=()):
     """the `names full …` request line for an encoded template"""
     el = bool(enable_loop or e.page_enable_loop)
     head = ["names", "full", enc_names(sorted(e.module_declared)), enc_names(e.ns_names),
             "1" if e.has_ns_imports else "0", "1" if strict else "0", "1" if el else "0", "1" if enable_loop else "0",
-            enc_names(sorted(imp)), enc_names(sorted(ctx)), enc_names(sorted(bi)), enc_names(sorted(extra)),
+            enc_names(sorted(imp)), enc_names(sorted(ctx)), enc_names(sorted(ctx_none)), enc_names(sorted(bi)), enc_names(sorted(extra)),
             "+".join(str(s) for s in stops) if stops else "_"]
     return " ".join(head + e.tokens)
 
